@@ -54,7 +54,7 @@ def cases(draw, two_d=False):
     desc = draw(files.spec_file_2d(max_voxels=60_000)) if two_d else \
         draw(files.spec_file_3d(max_voxels=120_000, versions=["0.2.8", "0.2.8", "0.2.1"]))
     nf = draw(st.sampled_from([1, 1, 1, 2]))
-    after = [{"how": draw(st.sampled_from(["same", "next", "next", "prev", "other"])), "step": draw(st.sampled_from([1, 4, 4, 8, 64])),
+    after = [{"how": draw(st.sampled_from(["same", "next", "next", "prev", "other", "family"])), "step": draw(st.sampled_from([1, 4, 4, 8, 64])),
               "a": draw(ops.abstract_op(METHODS))} for _ in range(draw(st.sampled_from([0, 1, 1, 2, 3])))]
     return {"file": desc, "a": draw(ops.abstract_op(METHODS)), "backend": draw(st.sampled_from(["local", "blob"])), "after": after,
             "faults": [[draw(st.floats(0, 1, exclude_max=True)), draw(st.sampled_from(KINDS)), draw(st.floats(0, 1, exclude_max=True))]
@@ -91,6 +91,14 @@ def followup_ops(T, op, after):
     for f in after or []:
         if f["how"] == "same":
             out.append(dict(op))
+            continue
+        if f["how"] == "family":
+            # after a header call, the other way of reading headers (whole arrays <-> one trace's header); after a
+            # sample call, a header call
+            if op["m"] in ("gen_trace_header", "gen_trace_header_all") and T.owners:
+                out.append({"m": "get_tracefield_values", "a": [T.owners[int(f["step"]) % len(T.owners)]]})
+            else:
+                out.append({"m": "gen_trace_header", "a": [int(f["step"]) % T.n_tr]})
             continue
         n = axis_len(T, op["m"])
         if f["how"] in ("next", "prev") and n and op["m"] != "read_subplane" and len(op["a"]) >= 1:
@@ -230,7 +238,7 @@ def enumerate_fixed(ctx):
         if op is None or op["m"] not in ops.methods_for(T, reader_only=True):
             continue
         case = {"check": "enum", "file": FIXED[fk], "a": a, "backend": backend, "ranks": [], "multithreading": True,
-                "after": [{"how": "next", "step": 4, "a": a}, {"how": "same", "step": 1, "a": a}]}
+                "after": [{"how": "next", "step": 4, "a": a}, {"how": "family", "step": 5, "a": a}, {"how": "same", "step": 1, "a": a}]}
         outcome, got, L0 = attempt(case, path, T, op, None, 0)
         if outcome != "ok":
             ctx.fail(case, Violation(f"exception:{m}", repr(got)))
